@@ -473,6 +473,9 @@ type c19Case struct {
 	M       int        `json:"m"` // records written by the peer after the resume
 	Side    string     `json:"side"`
 	Fresh   bool       `json:"fresh_state_object"` // resumed from the decoded copy (true) or from the State itself
+	// a record of the peer is still in flight at the export point: the original connection never
+	// sees it, it reaches the resumed one
+	Inflight bool `json:"inflight"`
 
 	ExportOK   bool   `json:"export_ok"`
 	MarshalErr string `json:"marshal_err"`
@@ -529,12 +532,14 @@ type c19Job struct {
 	i, j, k, m int
 	side       string
 	fresh      bool
+	inflight   bool
 	order      uint64
 }
 
 func c19RunMain(t *testing.T, jb c19Job) c19Case {
 	t.Helper()
 	res := c19Case{Kind: "main", Variant: jb.v, I: jb.i, J: jb.j, K: jb.k, M: jb.m, Side: jb.side, Fresh: jb.fresh,
+		Inflight: jb.inflight,
 		Notes: []string{}, WriteErrs: []string{}}
 	stores := [2]*c19Store{{m: map[string]Session{}}, {m: map[string]Session{}}}
 	if jb.v.Sess == 2 {
@@ -591,6 +596,14 @@ func c19RunMain(t *testing.T, jb c19Job) c19Case {
 	res.Before = c19Internal(self.Conn)
 	res.PeerState = c19Internal(peer.Conn)
 	res.SRTPBefore = c19SRTPOf(self.Conn)
+	if jb.inflight {
+		// written by the peer, held by the network until the resumed connection is up
+		pl := "inflight-" + peer.Name
+		res.PostSentPeer = append(res.PostSentPeer, pl)
+		if e := c19Write(peer.Conn, []byte(pl)); e != "ok" {
+			res.WriteErrs = append(res.WriteErrs, "inflight-peer:"+e)
+		}
+	}
 	st, ok := self.Conn.ConnectionState()
 	res.ExportOK = ok
 	if !ok {
@@ -641,7 +654,8 @@ func c19RunMain(t *testing.T, jb c19Job) c19Case {
 	synctest.Wait()
 
 	// ---- traffic after the resume
-	lab.Pump.next = lab.Net.count()
+	lab.Pump.next = exportIdx
+	lab.Pump.step()
 	basePeerReads := len(peer.reads())
 	wk, wm := 0, 0
 	for wk < jb.k || wm < jb.m {
@@ -778,7 +792,7 @@ func TestVerifC19Main(t *testing.T) {
 			j += 20 + rng.intn(70)
 		}
 		jobs = append(jobs, c19Job{v: v, i: i, j: j, k: rng.intn(4), m: rng.intn(4), side: sides[rng.intn(2)],
-			fresh: !rng.chance(15)})
+			fresh: !rng.chance(15), inflight: rng.chance(30)})
 	}
 	c19RSA()
 	vGetCreds()
@@ -1083,6 +1097,12 @@ func TestVerifC19Corrupt(t *testing.T) {
 	}
 	for _, sp := range specs {
 		b := c19MakeBase(t, sp.v, sp.side)
+		peerRaw, perr := b.peer.MarshalBinary()
+		if perr != nil {
+			t.Fatalf("peer MarshalBinary: %v", perr)
+		}
+		out.emit(map[string]any{"kind": "base", "base": b.v.Name, "side": b.side, "orig_hex": vHex(b.raw),
+			"peer_hex": vHex(peerRaw)})
 		type mutn struct {
 			name  string
 			data  []byte
@@ -1112,7 +1132,7 @@ func TestVerifC19Corrupt(t *testing.T) {
 		}
 		nBytes := 120
 		if vIsThorough() {
-			nBytes = 4000
+			nBytes = 1500
 		}
 		for x := 0; x < nBytes; x++ {
 			m := append([]byte(nil), b.raw...)
@@ -1304,6 +1324,12 @@ func (l *c19ProbeLogger) probe(at string) {
 	if c == nil {
 		return
 	}
+	// some trace lines are emitted with the connection lock held; a caller on another goroutine
+	// would simply wait there, so those points are skipped
+	if !c.lock.TryRLock() {
+		return
+	}
+	c.lock.RUnlock()
 	defer func() {
 		if r := recover(); r != nil {
 			common := dtlsstate.CommonState(c.state)
